@@ -623,6 +623,11 @@ def task_sweep_tables(ctx):
 
 
 def tasks(tier):
+    from .. import depth
+    return _tasks(tier) + [("little-stack", depth.task, dict(prop=PROPERTY))]
+
+
+def _tasks(tier):
     if tier == "quick":
         return [("compounds-a", task_compounds, dict(n=600, depth=2)),
                 ("compounds-b", task_compounds, dict(n=600, depth=1)),
@@ -645,6 +650,9 @@ def tasks(tier):
 
 
 def replay(ctx, case):
+    if isinstance(case, dict) and case.get("kind") == "little-stack":
+        from .. import depth
+        return depth.check(ctx, case)
     k = case.get("kind")
     if k == "compound":
         check_compound(ctx, case)
